@@ -8,6 +8,7 @@ import (
 	"sort"
 	"strings"
 	"testing"
+	"time"
 
 	"verifharness/vlib"
 
@@ -16,14 +17,14 @@ import (
 )
 
 type Case struct {
-	Client    bool   `json:"client"`
-	Stream    []byte `json:"stream"`
-	Cuts      []int  `json:"cuts,omitempty"`
-	AllSingle bool   `json:"all_single_cuts,omitempty"`
-	Bounds    []int  `json:"bounds,omitempty"` // message boundaries of the unmutated stream
-	BodyAt    []int  `json:"body_at,omitempty"`
-	Mutated   bool   `json:"mutated,omitempty"`
-	Preview   string `json:"preview"`
+	Client    bool     `json:"client"`
+	Stream    []byte   `json:"stream"`
+	Cuts      []int    `json:"cuts,omitempty"`
+	AllSingle bool     `json:"all_single_cuts,omitempty"`
+	Bounds    []int    `json:"bounds,omitempty"` // message boundaries of the unmutated stream
+	BodyAt    []int    `json:"body_at,omitempty"`
+	Mutated   bool     `json:"mutated,omitempty"`
+	Preview   string   `json:"preview"`
 	Classes   []string `json:"classes,omitempty"`
 }
 
@@ -63,9 +64,9 @@ func (p *recProc) OnBody(_ *nbhttp.Parser, d []byte) error {
 func (p *recProc) OnTrailerHeader(_ *nbhttp.Parser, k, v string) {
 	p.ev = append(p.ev, "trailer:"+k+"="+v)
 }
-func (p *recProc) OnComplete(_ *nbhttp.Parser)           { p.ev = append(p.ev, "complete") }
-func (p *recProc) Close(_ *nbhttp.Parser, err error)     {}
-func (p *recProc) Clean(_ *nbhttp.Parser)                {}
+func (p *recProc) OnComplete(_ *nbhttp.Parser)       { p.ev = append(p.ev, "complete") }
+func (p *recProc) Close(_ *nbhttp.Parser, err error) {}
+func (p *recProc) Clean(_ *nbhttp.Parser)            {}
 
 func feed(p *nbhttp.Parser, segs [][]byte) (err error, panicked any) {
 	defer func() {
@@ -188,6 +189,10 @@ func firstDiff(a, b string) string {
 var sharedEngine = newEngine()
 
 func runCase(c Case) vlib.Result {
+	return vlib.WithWatchdog(60*time.Second, "the HTTP parser", func() vlib.Result { return runCaseInner(c) })
+}
+
+func runCaseInner(c Case) vlib.Result {
 	res := vlib.Result{Classes: append([]string{}, c.Classes...)}
 	whole := [][]byte{c.Stream}
 	wantRec := traceRec(sharedEngine, c.Client, whole)
